@@ -1934,9 +1934,28 @@ impl Scenario for C07 {
         }
         let n_steps = rng.range(4, if size == 0 { 16 } else { 8 }) as usize;
         let nkeys = rng.range(1, 6);
+        // swarm: most programs concentrate half of their fill steps on one slab
+        // (create, overwrite, delete, create again on the same few keys / rows / edges)
+        let focus: &[u64] = match rng.below(7) {
+            0 | 1 => &[52, 53, 54, 25, 52],   // embeddings (entity index + slab), deletions of emb: keys
+            2 => &[30, 36, 37, 44, 47, 50],   // relational slab
+            3 => &[65, 66, 67, 72],           // graph tensor
+            4 => &[75, 76, 25],               // blob log
+            5 => &[60, 61, 63, 25],           // graph records
+            _ => &[],
+        };
+        let emb_focus = focus.first() == Some(&52);
         for _ in 0..n_steps {
             let r = rng.below(100);
             let s = match r {
+                0..=78 if !focus.is_empty() && rng.chance(1, 2) => {
+                    let fr = *rng.pick(focus);
+                    let mut st = gen_fill(rng, fr, cfg, nkeys, &mut nu);
+                    if let (true, Step::Del { class, .. }) = (emb_focus, &mut st) {
+                        *class = 1; // KEY_CLASSES[1] = "emb:"
+                    }
+                    st
+                },
                 0..=78 => gen_fill(rng, r, cfg, nkeys, &mut nu),
                 79..=92 => {
                     let fmt = match rng.below(8) {
